@@ -1,7 +1,7 @@
 (* ===== C18 : materialization is pure and deterministic across calls, histories and hash seeds ===== *)
 From Coq Require Import List Arith Bool NArith ZArith QArith Qcanon Permutation.
 Import ListNotations.
-Require Import GenPurity History HistoryLaws Mat MatDrop Mat2.
+Require Import GenPurity History HistoryLaws Mat MatDrop Mat2 SpannedOrder.
 Open Scope nat_scope.
 
 (* heap model of specs and their (aliased) state dictionaries: after ANY finite sequence of builds, updates and reuses, every
@@ -34,6 +34,24 @@ Example C18_example :
   observe (wrun true true wempty [HNew; HBuild 0 [7]; HBuild 0 [8]; HUpdate 1; HBuild 3 [9]]) 1 = Some ([7], [7], true).
 Proof. vm_compute. auto. Qed.
 
+(* hash seeds: the two hash-ordered collections the materializer iterates or consults are the evaluated factor pool and the set of
+   already-spanned scoped terms.  The pool is read by factor name only, so names, values, column order, dropped rows and structure are the
+   same for EVERY iteration order of it; `spanned` is consulted through membership only, so the scoped terms recorded for every term are
+   the same for every order of it, at every point of the loop. *)
+Theorem C18_result_independent_of_pool_order : forall evs evs' c n terms, NoDup (map fst evs) -> Permutation evs evs' ->
+  assemble evs (drop_set c evs) n (full_rank c) terms = assemble evs' (drop_set c evs') n (full_rank c) terms.
+Proof. exact assemble_pool_order. Qed.
+Theorem C18_scoped_terms_independent_of_spanned_order : forall fr evs terms done sp sp', Permutation sp sp' ->
+  fst (fold_left (scope_step fr evs) terms (done, sp)) = fst (fold_left (scope_step fr evs) terms (done, sp')).
+Proof. exact scoped_terms_ignore_spanned_order. Qed.
+Theorem C18_spanned_step_order : forall fr evs done sp sp' t, Permutation sp sp' ->
+  fst (scope_step fr evs (done, sp) t) = fst (scope_step fr evs (done, sp') t) /\
+  Permutation (snd (scope_step fr evs (done, sp) t)) (snd (scope_step fr evs (done, sp') t)).
+Proof. exact scope_step_perm. Qed.
+
+Print Assumptions C18_result_independent_of_pool_order.
+Print Assumptions C18_scoped_terms_independent_of_spanned_order.
+Print Assumptions C18_spanned_step_order.
 Print Assumptions C18_history_preserves_earlier_specs.
 Print Assumptions C18_repo_copies_state_on_build.
 Print Assumptions C18_repo_history.
